@@ -343,6 +343,15 @@ def body(ctx: Ctx):
     plan = [(s, "thread") for s in corpus] + [(gen_seq(ctx.rng), "thread") for _ in range(n_thread)]
     plan += [(s, "process") for s in corpus[:1]] + [(gen_seq(ctx.rng, with_counter=bool(i % 2)), "process") for i in range(n_proc)]
     model_out = m.ask_many([dict(op="wire_serve", reqs=s) for s, _ in plan])
+    # the parent side of the protocol is the model's too (C17.pair, theorem parent_pairs_each_request_with_its_own_reply): which
+    # request is handed which reply comes from the model; the harness's own index arithmetic (expected_of) must agree with it
+    pair_out = m.ask_many([dict(op="wire_pair", reqs=s) for s, _ in plan])
+    for (s, _), mo, po in zip(plan, model_out, pair_out):
+        a = [[i, r] for i, r in expected_of(mo, s)]
+        b = [[i, ({"result": True} if "ack" in r else (dict(r, cls=s[i]["cls"]) if s[i].get("cls") and "error" in r else r))] for i, r in po]
+        if a != b:
+            raise InfraError(f"C17.pair (model) and the harness disagree on which request gets which reply: {s} {a} {b}")
+    ctx.count("pairing_from_model(C17.pair)", len(plan))
     lock = threading.Lock()
 
     def one(item):
